@@ -415,6 +415,7 @@ class C12(Prop):
         try:
             da = lib.dump(pa)[0]
             db = lib.dump(pb)[0]
+            raw_a, raw_b = lib.shim_tree_rawhash(pa), lib.shim_tree_rawhash(pb)
             def fold_unique(jv):
                 return all(len(set(model.fold(k) for k, _ in n[1])) == len(n[1]) for n in model.walk_jv(jv) if n[0] == "O")
             modes = (1, 0) if (fold_unique(a) and fold_unique(b)) else (1,)
@@ -463,6 +464,8 @@ class C12(Prop):
                 stats.cls("invalid_type_checked")
             if lib.dump(pa)[0] != da or lib.dump(pb)[0] != db:
                 raise Violation("Compare modified one of its arguments", key="modified")
+            if lib.shim_tree_rawhash(pa) != raw_a or lib.shim_tree_rawhash(pb) != raw_b:
+                raise Violation("Compare changed bytes of one of its arguments (a bit of a node's type word, a link, a string): it never modifies them", key="modified-raw")
             self.reference_views(lib, stats, a, rnd)
             # invalid items: strings without a value (never equal to anything, not even to another such item)
             if case["rseed"] % 5 == 0:
